@@ -4,6 +4,7 @@
 f10_0:
   ret
   call f27_1
+  mov wvsv0@GOTPCREL(%rip),%rax
   ret
 .section .text.f10_1,"ax",@progbits
 .globl f10_1
@@ -12,4 +13,5 @@ f10_1:
   ret
   call f16_1
   call f16_0
+  mov wvsv0(%rip),%rax
   ret
